@@ -18,6 +18,21 @@ correspondence is numeric).
 -/
 namespace PyYetiVerif.RigidBody
 
+/-- a tabulated matrix: `get` agrees with the matrix it was made from on its `rows x cols` block.  (Two fields on
+purpose: the compiler erases one-field structures, and a function-valued result would be re-evaluated at every
+access by the `Float` driver.) -/
+structure Tbl (α : Type) where
+  get : NMat α
+  rows : Nat
+
+/-- how a model tabulates intermediate matrices: semantically the identity (`Memo.id`, what the theorems are about);
+the `Float` driver passes one that fills an `Array` once -/
+abbrev Memo (α : Type) := Nat → Nat → NMat α → Tbl α
+
+def Memo.id {α : Type} : Memo α := fun nr _ A => ⟨A, nr⟩
+
+@[simp] theorem Memo.id_get {α : Type} (nr nc : Nat) (A : NMat α) : (Memo.id nr nc A).get = A := rfl
+
 /-- numpy truthiness (`x != 0`) as `ndarray.any` evaluates it -/
 class NzTest (α : Type) where
   nz : α → Bool
